@@ -35,6 +35,7 @@ class Job:
   timeout: float = 300.0  # CrossHair per_condition_timeout per shard (CPU-ish s)
   twin_timeout: float = 60.0
   note: str = ""
+  env: dict = dataclasses.field(default_factory=dict)  # extra worker environment
 
 
 def _base_env(tier, cfg_dir, params):
@@ -62,6 +63,7 @@ def _run_worker(job, tier, cfg_dir, k, r, twin, rec_path, extra_env=None):
     e["VERIF_RECORD"] = rec_path
   if extra_env:
     e.update(extra_env)
+  e.update(job.env)
   timeout = job.twin_timeout if twin else job.timeout
   t0 = time.time()
   res = {"job": job.name, "shard": r, "of": k, "twin": twin}
